@@ -70,13 +70,18 @@ def make_op(d, noise=None):
     raise ValueError(g)
 
 
-def build(desc, noises=None):
+def build(desc, noises=None, return_ops=False):
     """build with circuit.add in program order"""
     from graphiq.circuit.circuit_dag import CircuitDAG
 
     c = CircuitDAG(n_emitter=desc["ne"], n_photon=desc["np"], n_classical=desc["nc"])
+    objs = []
     for i, d in enumerate(desc["ops"]):
-        c.add(make_op(d, None if noises is None else noises[i]))
+        op = make_op(d, None if noises is None else noises[i])
+        objs.append(op)
+        c.add(op)
+    if return_ops:
+        return c, objs
     return c
 
 
